@@ -51,6 +51,12 @@ type State struct {
 	blk    *BlockVC
 	havoc  bool
 	keep   func(string) bool
+	priv   []privObj // objects no other code can reach: a havoc leaves their fields alone (escape.go)
+}
+
+type privObj struct {
+	ref Term
+	T   types.Type
 }
 
 type Loc struct {
@@ -129,6 +135,7 @@ type FnCtx struct {
 	active       map[*Oblig]bool
 	curDefs      *[]string
 	storeDefs    map[Term]storeDef
+	private      []privObj
 	emitErr      func(map[*Oblig]bool) (string, error)
 }
 
@@ -309,6 +316,15 @@ func (c *FnCtx) get(st *State, comp string) Term {
 				old := c.get(s.parent, comp)
 				c.axioms = append(c.axioms, app("<=", old, t))
 			}
+			for _, p := range s.priv {
+				st := p.T.Underlying().(*types.Struct)
+				for k := 0; k < st.NumFields(); k++ {
+					if c.fieldComp(p.T, k) == comp && s.parent != nil {
+						old := c.get(s.parent, comp)
+						c.axioms = append(c.axioms, eq(app("select", t, p.ref), app("select", old, p.ref)))
+					}
+				}
+			}
 			return t
 		}
 		if s.parent == nil {
@@ -334,7 +350,7 @@ func (c *FnCtx) snapshot() *State {
 
 func (c *FnCtx) havocState(keep func(string) bool) {
 	old := c.st
-	c.st = &State{m: map[string]Term{}, parent: old, blk: old.blk, havoc: true, keep: keep}
+	c.st = &State{m: map[string]Term{}, parent: old, blk: old.blk, havoc: true, keep: keep, priv: append([]privObj{}, c.private...)}
 }
 
 func (c *FnCtx) forwardPreds(b *BlockVC) []*EdgeVC {
